@@ -77,8 +77,17 @@ OWN = [
 ]
 
 
+NON_UTF8 = [
+    ("latin1", "iso-8859-1", "## -*- coding: iso-8859-1 -*-\ncaf\u00e9 ma\u00f1ana \u00abJ\u00fcrgen\u00bb ${x}<%def name='f()'>\u00fcber</%def>${f()}", {"x": "\u00e9"}, "caf\u00e9 ma\u00f1ana \u00abJ\u00fcrgen\u00bb \u00e9\u00fcber"),
+    ("cp1251", "cp1251", "## -*- coding: cp1251 -*-\n\u0442\u0435\u0441\u0442 ${'\u0436' + x}", {"x": "\u044f"}, "\u0442\u0435\u0441\u0442 \u0436\u044f"),
+    ("shift_jis", "shift_jis", "## -*- coding: shift_jis -*-\n\u30bd\u30fc\u30b9 ${x}", {"x": "\u8868"}, "\u30bd\u30fc\u30b9 \u8868"),
+]
+
+
 def own_corpus():
     out = []
+    for name, enc, text, ctx, exp in NON_UTF8:
+        out.append({"id": "OWN:enc-" + name, "files": {"m.html": text}, "main": "m.html", "ctx": ctx, "expected": exp, "template_kwargs": {}, "env": None, "encoding": enc})
     for name, files, ctx, exp in OWN:
         f = {("m.html" if k == "m" else k): v for k, v in files.items()}
         if name == "cached":
@@ -160,6 +169,7 @@ def run_job(job):
     st = Stats()
     if job["kind"] == "collisions":
         collisions(st)
+        same_name_defs(st)
         if job.get("missing"):
             st.extra["corpora_not_available"] = job["missing"]
         return st
@@ -274,12 +284,75 @@ def judge(it, res, st):
 COLLIDE = ["a-b", "a_b", "a.b", "a b", "a/b"]
 
 
-def collisions(st):
+def same_name_defs(st, only=None):
+    """templates sharing a module name (URIs differing in punctuation, or one URI recompiled after its file changed)
+    whose defs have the same name but different signatures: get_def(name).render(**kw) and the body must use each
+    template's own signature"""
+    import time
+
+    from mako.lookup import TemplateLookup
+
+    t1 = "<%def name='item(title)'>[1:${title}]</%def>${item(title=title)}"
+    t2 = "<%def name='item(label=\"none\")'>[2:${label}]</%def>${item(label=label)}"
+    for mode in ("punctuation-string", "punctuation-files", "recompiled", "recompiled-moddir"):
+        for order in (0, 1):
+            if only is not None and only != (mode, order):
+                continue
+            st.states += 1
+            st.evaluations += 1
+            st.nontrivial += 1
+            root = core.scratch_dir("c08d-")
+            a, b = (t1, t2) if order == 0 else (t2, t1)
+            kwa, kwb = ({"title": "T"}, {"label": "L"}) if order == 0 else ({"label": "L"}, {"title": "T"})
+            exp = ["[1:T]", "[2:L]"] if order == 0 else ["[2:L]", "[1:T]"]
+            try:
+                if mode == "punctuation-string":
+                    L = TemplateLookup()
+                    L.put_string("card-v2.html", a)
+                    L.put_string("card_v2.html", b)
+                    ta, tb = L.get_template("card-v2.html"), L.get_template("card_v2.html")
+                    got = [ta.get_def("item").render(**kwa), ta.render(**kwa), tb.get_def("item").render(**kwb), tb.render(**kwb)]
+                elif mode == "punctuation-files":
+                    src = os.path.join(root, "src")
+                    os.makedirs(src)
+                    open(os.path.join(src, "card-v2.html"), "w").write(a)
+                    open(os.path.join(src, "card_v2.html"), "w").write(b)
+                    L = TemplateLookup(directories=[src], module_directory=os.path.join(root, "mods"))
+                    ta, tb = L.get_template("card-v2.html"), L.get_template("card_v2.html")
+                    got = [ta.get_def("item").render(**kwa), ta.render(**kwa), tb.get_def("item").render(**kwb), tb.render(**kwb)]
+                else:
+                    src = os.path.join(root, "src")
+                    os.makedirs(src)
+                    p = os.path.join(src, "card.html")
+                    open(p, "w").write(a)
+                    old = time.time() - 100
+                    os.utime(p, (old, old))
+                    L = TemplateLookup(directories=[src], module_directory=os.path.join(root, "mods") if mode.endswith("moddir") else None)
+                    ta = L.get_template("card.html")
+                    got = [ta.get_def("item").render(**kwa), ta.render(**kwa)]
+                    open(p, "w").write(b)
+                    new = time.time() + 100
+                    os.utime(p, (new, new))
+                    tb = L.get_template("card.html")
+                    got += [tb.get_def("item").render(**kwb), tb.render(**kwb)]
+            except BaseException as e:  # noqa
+                got = ["EXC %s: %s" % (type(e).__name__, str(e)[:100])]
+            want = [exp[0], exp[0], exp[1], exp[1]]
+            st.outcomes["same-name-defs:%s:%s" % (mode, "ok" if got == want else "differs")] += 1
+            if got != want:
+                st.violation("same-name-defs:%s" % mode.split("-")[0], {"kind": "samename", "mode": mode, "order": order}, "get_def(name).render() and the body use the template's own def signature, whatever was compiled before under the same module name", want, got)
+
+
+
+
+def collisions(st, only=None):
     """all pairs of URIs that differ only in non-word characters, registered in one lookup"""
     from mako.lookup import TemplateLookup
 
     for backing in ("put_string", "files", "files+moddir"):
         for u1, u2 in itertools.permutations(COLLIDE, 2):
+            if only is not None and only != (backing, u1, u2):
+                continue
             st.states += 1
             st.evaluations += 1
             st.nontrivial += 1
@@ -322,7 +395,11 @@ def collisions(st):
 def replay(case):
     st = Stats()
     if case.get("kind") == "collision":
-        return None, "collision replay: re-run the check"
+        collisions(st, only=(case["backing"], case["uris"][0], case["uris"][1]))
+        return (False, "reproduced: %s" % st.violations[0]["sig"]) if st.violations else (True, "holds")
+    if case.get("kind") == "samename":
+        same_name_defs(st, only=(case["mode"], case["order"]))
+        return (False, "reproduced: %s" % st.violations[0]["sig"]) if st.violations else (True, "holds")
     it = dict(case)
     root = core.scratch_dir("c08r-")
     res = {"0": c08_lib.run_item(it, os.path.join(root, "s0", "x"), IN_PROCESS + (["cmd"] if cmd_ok(it) else []))}
